@@ -337,7 +337,7 @@ class Check(BaseCheck):
             specs.append({'campaign': 'literals', 'n': 8000, 'seed': seed, 'i': 0})
         else:
             for i in range(32):
-                specs.append({'campaign': 'trees', 'n': 30000, 'seed': seed, 'i': i, 'maxdepth': 12 if i % 2 else 6})
+                specs.append({'campaign': 'trees', 'n': 110000, 'seed': seed, 'i': i, 'maxdepth': 12 if i % 2 else 6})
             for i in range(4):
                 specs.append({'campaign': 'literals', 'n': 30000, 'seed': seed, 'i': i})
         return specs
